@@ -62,7 +62,8 @@ def run(ctx):
     for cfg in (["MC_Market_lp", "MC_Market_fix"] if q else ["MC_Market_lp_thorough", "MC_Market_fix_thorough"]):
         rows, cfgs = _m1.explore(ctx, cfg, {"deposit", "withdraw"}, timeout=900 if q else 2400)
         total_rows += len(rows)
-        judge(_m1.replay(ctx, rows, cfgs, cfg), "h-model c04 replay (%s)" % cfg)
+        for k, part in enumerate(_m1.batches(rows, 40000)):
+            judge(_m1.replay(ctx, part, cfgs, "%s-%d" % (cfg, k)), "h-model c04 replay (%s)" % cfg)
     if not q:
         _m1.simulate(ctx, "MC_Market_sim", 40000)
     judge(_m1.random_trace(ctx, "random", 1500 if q else 20000), "h-model c04 random")
